@@ -1219,7 +1219,9 @@ func genSubWriterOps(r *rand.Rand, t string, n int, profile string) []cacheOp {
 		case "HasTarget", "Query", "UpdateSize", "Add", "UpdateMetadata":
 			continue
 		case "Remove":
-			if profile != "remove" || r.Intn(2) == 0 {
+			// whole-target removals: in the remove profile, and now and then under an ACL (the delete of a target a
+			// subscriber may not see is not for it either)
+			if !(profile == "remove" && r.Intn(2) == 0) && !(profile == "acl" && r.Intn(3) == 0) {
 				continue
 			}
 		case "GnmiUpdate":
